@@ -249,7 +249,7 @@ func c19Parse(c *Ctx) {
 	// table content folded from the initialiser
 	in := bitdom.New(c.P.SSA, c.wordBits())
 	pk := c.P.Pkg("pkg/bech32/address")
-	if g, ok := pk.Members["hrpStrings"].(*ssa.Global); ok {
+	if g := c.gvar("pkg/bech32/address", "hrpStrings"); g != nil {
 		in.Call(pk.Func("init"), nil)
 		var entries []string
 		if cell := in.Globals[g]; cell != nil {
